@@ -98,6 +98,9 @@ func (p *c06Prop) Gen(r *Rng, i int, tier string) interface{} {
 				}
 				if c.Ver == 5 {
 					pk.Flag = r.Chance(30)
+					if pk.NF >= 2 && r.Chance(12) {
+						pk.QoS = 1 // the LAST filter is a shared subscription with No Local: a protocol error, whatever precedes it
+					}
 				}
 			} else {
 				// v5: stay outside known finding C06-unsuback-no-codes: unsubscribe what is subscribed
@@ -231,6 +234,10 @@ func c06Build(ver mqttp.ProtocolVersion, pk c06Pkt, k int) ([]byte, error) {
 		for i := range fs {
 			fs[i] = fmt.Sprintf("s/%d", pk.Fs[i%len(pk.Fs)])
 		}
+		if pk.QoS == 1 && ver == mqttp.ProtocolV50 && pk.NF >= 2 {
+			fs[pk.NF-1] = "$share/g/" + fs[pk.NF-1]
+			ops[pk.NF-1] = 0x04
+		}
 		s := mkSubscribe(ver, uint16(id), fs, ops)
 		if pk.Flag && ver == mqttp.ProtocolV50 {
 			_ = s.PropertySet(mqttp.PropertySubscriptionIdentifier, uint32(7))
@@ -316,7 +323,7 @@ func (p *c06Prop) Run(ci interface{}) interface{} {
 		vers = v2
 	}
 	au := &progAuth{password: func(_, user, _ string) bool { return user != "deny" }}
-	b, err := NewBroker(BrokerOpts{Versions: vers, SubsID: c.SubsID, Auth: []*progAuth{au}})
+	b, err := NewBroker(BrokerOpts{Versions: vers, SubsID: c.SubsID, SubsShared: true, Auth: []*progAuth{au}})
 	if err != nil {
 		obs.Err = err.Error()
 		return obs
